@@ -11,9 +11,13 @@ package service
 //@   ensures err == nil ==> result0 == dparse(s)
 
 // CRI-labels reader: mandatory labels, target digest, and the URL label consulted for the i-th listed digest is urls.<i>
+//@ func strings.Split
+//@   trusted
+//@   ensures len(result) >= 1
 //@ func sourceFromCRILabels$1
 //@   props C20
 //@   ensures[C20] !(targetRefLabel in labels) ==> err != nil
 //@   ensures[C20] !(targetLayerDigestLabel in labels) ==> err != nil
 //@   ensures[C20] err == nil ==> len(result0) == 1 && result0[0].Target.Digest == dparse(labels[targetLayerDigestLabel])
 //@   assert[C20] after "if urls, ok := labels[targetImageURLsLabelPrefix" : ok ==> urls == labels[targetImageURLsLabelPrefix + sprintf("%d", rangeidx)]
+//@   ensures[C20] err == nil && (!(targetURLsLabel in labels) || labels[targetURLsLabel] == "") ==> len(result0[0].Target.URLs) == 0
